@@ -154,6 +154,13 @@ func message2Chunks(message []byte, header *base.RtmpHeader, prevHeader *base.Rt
 		maxNeededLen += lastChunkSize + maxHeaderSize
 	}
 
+	// 包体为空的message也需要一个只有header的chunk，否则对端完全收不到这个message
+	if len(message) == 0 {
+		numOfChunk = 1
+		lastChunkSize = 0
+		maxNeededLen = maxHeaderSize
+	}
+
 	out := make([]byte, maxNeededLen)
 
 	var index int
